@@ -10,6 +10,7 @@ Fixpoint acked_from (up : bool) (h : list hop) : list bulk :=
   | [] => []
   | HBulk b :: r => if up then b :: acked_from true r else acked_from false r
   | HCrashIn _ _ _ _ _ :: r => acked_from false r
+  | HFault _ _ _ :: r => acked_from up r
   | HPower :: r => acked_from false r
   | HRestart :: r => acked_from true r
   | HRestartCrash :: r => acked_from false r
@@ -19,6 +20,7 @@ Fixpoint tried_from (up : bool) (h : list hop) : list bulk :=
   | [] => []
   | HBulk b :: r => tried_from up r
   | HCrashIn b _ _ _ _ :: r => if up then b :: tried_from false r else tried_from false r
+  | HFault b _ _ :: r => if up then b :: tried_from true r else tried_from false r
   | HPower :: r => tried_from false r
   | HRestart :: r => tried_from true r
   | HRestartCrash :: r => tried_from false r
@@ -69,13 +71,13 @@ Section WithCodec.
   Qed.
 
   Lemma step_inv : forall s bs o,
-    Inv s bs -> Forall wf_bulk (hop_bulk o) ->
+    Inv s bs -> Forall wf_bulk (hop_bulk o) -> is_fault o = false ->
     exists s' ext, step dec_m s o = Ok s' /\ Inv s' (bs ++ ext) /\ incl ext (hop_bulk o).
   Proof.
-    intros s bs o HI Hwo.
+    intros s bs o HI Hwo Hnf.
     pose proof (inv_disk_form s bs HI) as (tm0 & td0 & Hdisk0 & Htm0).
     destruct HI as (Hwf & Hack & Hsub & Hst).
-    destruct o as [b | b k t kd km | | |]; unfold step.
+    destruct o as [b | b k t kd km | b fm cut | | |]; unfold step; [| | discriminate Hnf | | |].
     - (* HBulk *)
       destruct (s_proc s) as [p |] eqn:Ep.
       + destruct Hst as (Hd & Hod & Hom & Hix).
@@ -146,14 +148,15 @@ Section WithCodec.
   Qed.
 
   Lemma run_inv : forall h s bs,
-    Inv s bs -> Forall wf_bulk (hist_bulks h) ->
+    Inv s bs -> Forall wf_bulk (hist_bulks h) -> fault_free h ->
     exists s' ext, run_from dec_m s h = Ok s' /\ Inv s' (bs ++ ext) /\ incl ext (hist_bulks h).
   Proof.
-    induction h as [| o r IH]; intros s bs HI Hwf.
+    induction h as [| o r IH]; intros s bs HI Hwf Hff.
     - exists s, []. rewrite app_nil_r. cbn. auto using incl_nil_l.
     - cbn [hist_bulks flat_map] in Hwf. apply Forall_app in Hwf. destruct Hwf as (Hwo & Hwr).
-      destruct (step_inv s bs o HI Hwo) as (s1 & e1 & Hs & HI1 & He1).
-      destruct (IH s1 (bs ++ e1) HI1 Hwr) as (s2 & e2 & Hr & HI2 & He2).
+      inversion Hff as [| ? ? Hfo Hfr]; subst.
+      destruct (step_inv s bs o HI Hwo Hfo) as (s1 & e1 & Hs & HI1 & He1).
+      destruct (IH s1 (bs ++ e1) HI1 Hwr Hfr) as (s2 & e2 & Hr & HI2 & He2).
       exists s2, (e1 ++ e2). cbn [run_from]. rewrite Hs. split; auto.
       rewrite app_assoc. split; auto.
       cbn [hist_bulks flat_map]. apply incl_app; [apply incl_appl | apply incl_appr]; auto.
@@ -164,14 +167,17 @@ Section WithCodec.
     s_acked s' = s_acked s ++ acked_from (is_up s) [o] /\
     s_tried s' = s_tried s ++ tried_from (is_up s) [o] /\
     is_up s' = match o with
-               | HBulk _ => is_up s | HRestart => true | _ => false end.
+               | HBulk _ => is_up s | HFault _ _ _ => is_up s | HRestart => true | _ => false end.
   Proof.
     intros s o s' H. unfold step, is_up in *.
-    destruct o as [b | b k t kd km | | |]; destruct (s_proc s) as [p |] eqn:Ep; cbn.
+    destruct o as [b | b k t kd km | b fm cut | | |]; destruct (s_proc s) as [p |] eqn:Ep; cbn.
     - destruct (do_bulk dec_m (s_disk s) p b) as [[d' p'] | |]; inversion H; subst; cbn.
       rewrite app_nil_r. auto.
     - inversion H; subst. rewrite Ep, !app_nil_r. auto.
     - inversion H; subst; cbn. rewrite app_nil_r. auto.
+    - inversion H; subst. rewrite Ep, !app_nil_r. auto.
+    - destruct (do_fault (s_disk s) p b fm cut) as [d' p']. inversion H; subst; cbn.
+      rewrite app_nil_r. auto.
     - inversion H; subst. rewrite Ep, !app_nil_r. auto.
     - inversion H; subst; cbn. rewrite !app_nil_r. auto.
     - inversion H; subst. rewrite Ep, !app_nil_r. auto.
@@ -187,9 +193,9 @@ Section WithCodec.
 
   Lemma from_cons : forall up o r,
     acked_from up (o :: r) = acked_from up [o] ++
-      acked_from (match o with HBulk _ => up | HRestart => true | _ => false end) r /\
+      acked_from (match o with HBulk _ => up | HFault _ _ _ => up | HRestart => true | _ => false end) r /\
     tried_from up (o :: r) = tried_from up [o] ++
-      tried_from (match o with HBulk _ => up | HRestart => true | _ => false end) r.
+      tried_from (match o with HBulk _ => up | HFault _ _ _ => up | HRestart => true | _ => false end) r.
   Proof. intros. destruct o; destruct up; cbn; auto. Qed.
 
   Lemma run_ghost : forall h s s', run_from dec_m s h = Ok s' ->
